@@ -408,14 +408,18 @@ def run(ctx):
     den_ref = sp.Abs(1 - phi1_ref * sp.exp(-sp.I * thm) - phi2_ref * sp.exp(-2 * sp.I * thm))**2
     d_ref = sp.re(num_ref / den_ref) / (2 * sp.pi)
     mem_terms = {}
+    from .fc import inline_value_calls as _inline
     for q in (EST + "mem._mem", EST + "mem.numba_mem"):
-        fm = p.get_function(q)
+        fm = _inline(p, p.get_function(q))        # private helpers (shared harmonics, ...) are seen through
         itm = Interp(p)
         env = _Env(itm, fm, fm.module)
         env.vars.update({"a1": A1, "b1": B1, "a2": A2, "b2": B2, "directions_radians": thm})
         la_ = {}
         d_unnorm = None
         for st in fm.node.body:
+            if isinstance(st, ast.Assign) and len(st.targets) == 1 and isinstance(st.targets[0], (ast.Tuple, ast.List)):
+                itm.assign_target(st.targets[0], itm.eval(st.value, env), env, st)      # e1, e2 = (..)
+                continue
             if isinstance(st, ast.Assign) and len(st.targets) == 1 and isinstance(st.targets[0], ast.Name):
                 nm = st.targets[0].id
                 sums = [c for c in ast.walk(st.value) if isinstance(c, ast.Call) and ast.unparse(c.func) in ("np.sum", "numpy.sum") and c.args]
